@@ -66,6 +66,10 @@ def herm(r, D, traceless):
     A = (A + A.conj().T) / 2
     if traceless:
         A = A - np.trace(A).real / D * np.eye(D)
+        acc = 0.0                     # exact zero trace (see tools/ffv/gen.py herm)
+        for i in range(D - 1):
+            acc = acc + A[i, i].real
+        A[D - 1, D - 1] = -acc
     return A
 
 
